@@ -64,6 +64,10 @@ def setup_tree(root: Path):
     (root / "f2.json").write_text(F2)
     (root / "f3.foam").write_text(F3)
     (root / "f4").write_text(F4)
+    # an ABSOLUTE include name next to a relative one that the absolutely included file includes, too
+    (root / "f5").write_text(f"#include 'x5'\n#include '{root}/other5'\nm5  1;\n")
+    (root / "other5").write_text("#include 'x5'\no5  2;\n")
+    (root / "x5").write_text("x5  3;\n")
 
 
 def canon(d):
@@ -78,6 +82,8 @@ def do_op(root: Path, op: str, spelling: str, out_tag: str):
         p = root / rel
         if spelling == "abs":
             return p
+        if spelling == "dotdot":
+            return root / "sub" / ".." / rel          # the same file, spelled through a sibling folder
         return Path(os.path.relpath(p, os.getcwd()))
     if op == "read1":
         return ("data", canon(dictIO.DictReader.read(P("f1"))))
@@ -100,6 +106,8 @@ def do_op(root: Path, op: str, spelling: str, out_tag: str):
     if op == "parse":
         dictIO.DictParser.parse(P("f1"))
         return ("bytes", (root / "parsed.f1").read_bytes())
+    if op == "read5":
+        return ("data", canon(dictIO.DictReader.read(P("f5"))))
     if op == "read4":
         return ("data", canon(dictIO.DictReader.read(P("f4"))))
     if op == "parse4":
@@ -142,7 +150,7 @@ def do_op(root: Path, op: str, spelling: str, out_tag: str):
 
 
 PREFIX_OPS = ["read1", "read2", "read3", "write", "parse", "dumpload", "reset", "read1o"]
-OBSERVED = ["read1", "read1o", "read1n", "read2", "read3", "read4", "write", "writeo", "parse", "parseo", "parsej", "parse4", "dumpload", "writeback", "loaddump"]
+OBSERVED = ["read1", "read1o", "read1n", "read2", "read3", "read4", "read5", "write", "writeo", "parse", "parseo", "parsej", "parse4", "dumpload", "writeback", "loaddump"]
 CWDS = [".", "sub", "sub/deep", "other"]
 # every offset of the wrap inside one read of f1 (about 14 placeholders): each placeholder gets id 0 under one of them
 COUNTERS = [-1, 5] + list(range(999984, 1000000))
@@ -195,6 +203,19 @@ def oracle(case: dict):
         ren = lambda b: native.canon_ids(re.sub(r"#include(\d{6})", r"INCLUDE\1", b.decode()))  # noqa: E731
         if ren(got[1]) == ren(ref[1]):
             return ("json-bytes-carry-placeholder-ids", f"JSON output differs from the reference run only in placeholder ids: {got[1][:160]!r}")
+    if got != ref and case["observed"] == "read5" and got[0] == "data":
+        def no_inc(t):
+            import ast
+
+            d = ast.literal_eval(t) if isinstance(t, str) else t
+            return {k: v for k, v in d.items() if not (isinstance(k, str) and k.startswith("INCLUDE"))}
+        try:
+            same = no_inc(got[1]) == no_inc(ref[1])
+        except Exception:  # noqa: BLE001
+            same = False
+        if same:
+            return ("include-placeholder-depends-on-spelling", f"read of a file with an absolute include name: the data differ from the reference run only in "
+                                                               f"include placeholder entries: {str(got[1])[:300]!r} vs {str(ref[1])[:300]!r}")
     if got != ref and got[0] == "bytes" and case["observed"] == "parse4":
         if native.canon_ids(got[1].decode()) == native.canon_ids(ref[1].decode()) and b"LINECOMMENT" in got[1]:
             return ("written-text-carries-placeholder-id", f"the written text differs from the reference run only in a placeholder id it spells out: {got[1][:200]!r}")
@@ -226,6 +247,7 @@ def order_wrap(case, f):
 
 
 KNOWN_PREDICATES = {"C08-order-across-counter-wrap": order_wrap,
+                    "C08-absolute-include-path-spelling": lambda case, f: case["observed"] == "read5" and f["symptom"] == "include-placeholder-depends-on-spelling",
                     "C08-line-comment-inside-block-comment": lambda case, f: case["observed"] == "parse4" and f["symptom"] == "written-text-carries-placeholder-id",
                     "C08-json-output-carries-placeholder-ids": lambda case, f: f["symptom"] == "json-bytes-carry-placeholder-ids"}
 
@@ -255,16 +277,16 @@ def run(ctx):
     for pre in prefixes:
         for obs in (OBSERVED if len(pre) <= 1 else rng.sample(OBSERVED, 3)):
             cases.append({"cwd": rng.choice(CWDS), "counter": rng.choice(COUNTERS[:2]), "prefix": list(pre),
-                          "spelling": rng.choice(["rel", "abs"]), "observed": obs})
+                          "spelling": rng.choice(["rel", "abs", "dotdot"]), "observed": obs})
     # every cwd x spelling x counter for every observed op (no prefix)
-    for obs, cwd, sp, cnt in itertools.product(OBSERVED, CWDS, ["rel", "abs"], COUNTERS):
+    for obs, cwd, sp, cnt in itertools.product(OBSERVED, CWDS, ["rel", "abs", "dotdot"], COUNTERS):
         if ctx.tier == "quick" and rng.random() < 0.6:
             continue
         cases.append({"cwd": cwd, "counter": cnt, "prefix": [], "spelling": sp, "observed": obs})
     # random long interleavings, counter wraps forced in the middle
     for _ in range(ctx.n(40, 1500)):
         pre = [rng.choice(PREFIX_OPS) for _ in range(rng.randrange(3, 13))]
-        cases.append({"cwd": rng.choice(CWDS), "counter": rng.choice(COUNTERS), "prefix": pre, "spelling": rng.choice(["rel", "abs"]),
+        cases.append({"cwd": rng.choice(CWDS), "counter": rng.choice(COUNTERS), "prefix": pre, "spelling": rng.choice(["rel", "abs", "dotdot"]),
                       "observed": rng.choice(OBSERVED), "counter_after_prefix": rng.choice([None, None, 999996, 999999])})
     for c in cases:
         r = oracle(c)
